@@ -72,10 +72,14 @@ func (d *WindowedThroughputSampler) GetSampleRate(trace *types.Trace) (rate uint
 	}
 	count := int(trace.DescendantCount())
 
-	rate = uint(d.dynsampler.GetSampleRateMulti(key, count))
-	if rate < 1 { // protect against dynsampler being broken even though it shouldn't be
-		rate = 1
+	// protect against the dynsampler returning a rate below 1 (it does for a
+	// negative configured rate, which validation accepts); the check has to
+	// happen before the conversion to uint, which would hide a negative value
+	dynRate := d.dynsampler.GetSampleRateMulti(key, count)
+	if dynRate < 1 {
+		dynRate = 1
 	}
+	rate = uint(dynRate)
 	shouldKeep := rand.Intn(int(rate)) == 0
 	d.metricsRecorder.RecordMetrics(d.dynsampler, shouldKeep, rate, n)
 
